@@ -118,7 +118,7 @@ func TestVerifShutdownFullQueue(t *testing.T) {
 		Setup [][]int `json:"setup"`
 		Data  [][]int `json:"data"`
 	}
-	if backlog {
+	if backlog || os.Getenv("VERIF_DGRAMS") != "" {
 		b, err := ioutil.ReadFile(os.Getenv("VERIF_DGRAMS"))
 		if err != nil || json.Unmarshal(b, &dgrams) != nil {
 			t.Fatalf("driver: datagram file: %v", err)
@@ -202,9 +202,18 @@ func TestVerifShutdownFullQueue(t *testing.T) {
 			sent++
 		}
 	} else {
+		// (the workers are stalled from the start: the templates wait in the queue in front of the data)
+		for _, d := range dgrams.Setup {
+			c.Write(toBytes(d))
+			sent++
+		}
 		for udpCount() < 1003 && time.Now().Before(deadline) {
 			for k := 0; k < 50; k++ {
-				c.Write([]byte(fmt.Sprintf("not a flow datagram %06d", sent)))
+				if len(dgrams.Data) > 0 { // decodable datagrams: the workers will have messages to publish while shutdown() runs
+					c.Write(toBytes(dgrams.Data[sent%len(dgrams.Data)]))
+				} else {
+					c.Write([]byte(fmt.Sprintf("not a flow datagram %06d", sent)))
+				}
 				sent++
 			}
 			time.Sleep(5 * time.Millisecond)
